@@ -21,7 +21,8 @@ import translate_tariffs as TT  # noqa: E402
 ID = "C17"
 FILES = list(TT.BUNDLED)
 FILE_MODULES = {f: f"AcnProofs.Lemmas.TariffFile_{f}" for f in FILES}
-LEAN_MODULES = ["AcnProofs.C17", "AcnProofs.Lemmas.CodeTieTariff"] + [FILE_MODULES[f] for f in FILES]
+LEAN_MODULES = ["AcnProofs.C17"] + [FILE_MODULES[f] for f in FILES]
+TIE_MODULES = ["AcnProofs.Lemmas.CodeTieTariff"]
 DRIVER = "drv_C17"
 REQUIRED_THEOREMS = [
     "Acn.C17.wrap_split_spec", "Acn.C17.lookup_spec", "Acn.C17.select_of_count_one",
